@@ -341,7 +341,10 @@ def conditions(tier):
 
 def validate_stubs():
     from props import c17
-    return c17.validate_stubs()
+    out = list(c17.validate_stubs())
+    from props import c03
+    out += c03.validate_stubs()          # tree wire against ET.tostring / expat
+    return out
 
 
 def signature(cond_name, args, detail):
